@@ -27,8 +27,27 @@ Also checked: ``inserted_primary_key(_rows)``, ``returned_defaults(_rows)`` and
 the ORM object's attributes after flush equal the stored row (PK given / SQLite
 autoincrement / client-side callable PK).
 
-Mutations caught (each in a private copy, VF_REPO=/tmp/wt-dml): see end of file
-docstring block MUTATIONS.
+Genuine defect found on the unchanged tree (kept as a violation with one stable
+signature, see the report / known_findings.json):
+``orm-attribute: kinds=callable,scalar,scalar,scalar pk=given route=ou_flush rows=[c2;c2]``
+- orm/persistence.py ``_emit_update_statements`` (executemany branch) hands
+``compiled_parameters[0]`` to ``_postfetch`` for every record, so after a flush
+that batches two UPDATEs each object shows the *first* row's python-side
+onupdate value instead of the one stored for its own row.
+
+Mutations caught (each in a private copy, VF_REPO=/tmp/wt-dml):
+  1. engine/default.py _process_execute_defaults: ``self.current_parameters = param``
+     -> ``= self.compiled_parameters[0]`` (context-sensitive default sees the first row)
+  2. sql/crud.py _get_stmt_parameter_tuples_params: ``parameters.setdefault(colkey, v)``
+     only ``if v is not None`` (values(col=None) treated as omitted)
+  3. orm/persistence.py _emit_insert_statements / _emit_update_statements: the
+     ``set(rec[2])`` parameter-key component of the groupby key dropped (first
+     row's key set used for all rows of a flush) - two separate edits
+  4. engine/default.py: UPDATE prefetch uses ``c._default_description_tuple``
+     instead of ``c._onupdate_description_tuple`` (swapped branch)
+  5. engine/default.py: python callable default memoised per statement (evaluated
+     once per statement instead of once per row)
+  6. orm/persistence.py _collect_insert_commands: ``and not render_nulls`` dropped
 """
 from __future__ import annotations
 
@@ -586,6 +605,8 @@ def cases_for(kinds):
         yield dict(kinds=kinds, pk="given", route="o_flush", rows=[spec])
     for route in ("o_flush", "o_bulk", "o_bulk_nulls", "o_bulk_maps"):
         for rows in pair_specs():
+            if rows[0].get("none") and route != "o_bulk_nulls":
+                continue  # ORM INSERT: None == omitted (documented), that pair is enumerated as the smaller subset
             yield dict(kinds=kinds, pk="given", route=route, rows=rows)
     # ---- UPDATE
     for route in ("u_single", "u_values", "u_single_rd"):
@@ -629,22 +650,91 @@ def _sig(kind, case):
     return "%s: kinds=%s pk=%s route=%s rows=[%s]" % (kind, ",".join(case["kinds"]), case.get("pk", "given"), case["route"], rows)
 
 
+def _fails(case, kind):
+    w = World(case["kinds"])
+    try:
+        probs = execute_case(w, case)
+    except Exception:
+        probs = []
+    finally:
+        w.dispose()
+    for k, d in probs:
+        if k == kind:
+            return d
+    return None
+
+
+def _permute(case, perm):
+    """column c(j+1) of the result is column c(perm[j]+1) of the case"""
+    inv = {"c%d" % (old + 1): "c%d" % (new + 1) for new, old in enumerate(perm)}
+
+    def mv(lst):
+        return sorted(inv[c] for c in lst)
+
+    rows = []
+    for r in case["rows"]:
+        rr = dict(s=mv(r["s"]))
+        for k in ("none", "null"):
+            if r.get(k):
+                rr[k] = mv(r[k])
+        rows.append(rr)
+    return dict(case, kinds=[case["kinds"][old] for old in perm], rows=rows)
+
+
 def _minimal_kinds(case, kind):
-    """shrink the kind assignment towards all-'none' while the failure class persists (stable minimal signature)"""
-    cur = dict(case)
-    for j in range(NCOL):
-        if cur["kinds"][j] == "none":
-            continue
-        trial = dict(cur, kinds=[("none" if i == j else k) for i, k in enumerate(cur["kinds"])])
-        w = World(trial["kinds"])
-        try:
-            probs = execute_case(w, trial)
-        except Exception:
-            probs = []
-        finally:
-            w.dispose()
-        if any(k == kind for k, _ in probs):
+    """canonical minimal failing sub-case (one root cause -> one signature, whatever shard met it first):
+    kinds towards 'none', ctx towards callable, None/null markers and supplied columns dropped, rows dropped,
+    then the lexicographically least column permutation that still fails"""
+    cur = {k: v for k, v in case.items()}
+
+    def attempt(trial):
+        nonlocal cur
+        if _fails(trial, kind) is not None:
             cur = trial
+            return True
+        return False
+
+    changed = True
+    while changed:
+        changed = False
+        for j in range(NCOL):
+            for repl in ("none", "scalar", "callable"):
+                k = cur["kinds"][j]
+                if k == repl or KINDS.index(repl) >= KINDS.index(k) and not (k == "ctx" and repl == "callable"):
+                    continue
+                if attempt(dict(cur, kinds=[(repl if i == j else kk) for i, kk in enumerate(cur["kinds"])])):
+                    changed = True
+                    break
+        for ri in range(len(cur["rows"])):
+            r = cur["rows"][ri]
+            for key in ("none", "null"):
+                if r.get(key):
+                    rr = {k: v for k, v in r.items() if k != key}
+                    if attempt(dict(cur, rows=cur["rows"][:ri] + [rr] + cur["rows"][ri + 1:])):
+                        changed = True
+            r = cur["rows"][ri]
+            for c in list(r["s"]):
+                rr = dict(s=[x for x in r["s"] if x != c])
+                for key in ("none", "null"):
+                    if r.get(key) and [x for x in r[key] if x != c]:
+                        rr[key] = [x for x in r[key] if x != c]
+                if attempt(dict(cur, rows=cur["rows"][:ri] + [rr] + cur["rows"][ri + 1:])):
+                    changed = True
+                    r = cur["rows"][ri]
+        if len(cur["rows"]) > 1:
+            for ri in range(len(cur["rows"])):
+                if attempt(dict(cur, rows=cur["rows"][:ri] + cur["rows"][ri + 1:])):
+                    changed = True
+                    break
+    cands = []
+    for perm in itertools.permutations(range(NCOL)):
+        c = _permute(cur, perm)
+        cands.append((_sig(kind, c), perm))
+    cands.sort()
+    for sig, perm in cands:
+        c = _permute(cur, perm)
+        if _fails(c, kind) is not None:
+            return c
     return cur
 
 
@@ -668,8 +758,11 @@ def run_shard(shard, tier, rec):
                 if not fresh and prev is not None:
                     rcase["pre"] = [prev]
                 for kind, detail in probs[:1]:
+                    if ("kind", (kind, case["route"], case["pk"])) in rec._vsigs:
+                        rec.count("violating_cases")
+                        continue
                     small = _minimal_kinds(rcase, kind) if fresh else rcase
-                    rec.violation(_sig(kind, small), detail, small, kind=(kind, case["route"], case["pk"]))
+                    rec.violation(_sig(kind, small), _fails(small, kind) or detail, small, kind=(kind, case["route"], case["pk"]))
             else:
                 rec.outcome((case["route"], case["pk"], tuple(len(r["s"]) for r in case["rows"])))
                 if nt and len(case["rows"]) == 2 and case["rows"][0]["s"] != case["rows"][1]["s"] and case["route"] in ("o_flush", "i_many", "ou_bulk") and len(case["rows"][0]["s"]) == 2:
